@@ -4,6 +4,10 @@ import json, os
 HERE = os.path.dirname(os.path.dirname(os.path.abspath(__file__)))
 
 CLAIMED = {
+ 'C08': ('clang AST statement-order and table rules over the layout algorithm (align/record/advance/tail-pad), failure propagation, tag->ffi type tables',
+         'Decides only what is in the source: the struct layout loop aligns to the member, records the offset, then advances, and pads the tail; unions take maxima and pad the tail; GI_ALIGN is the power-of-two round-up; a failing member yields -1/-1 and 0xFFFF offsets; every type tag maps to the ffi type of its width and signedness (exhaustive over the tables); fixed-size arrays in fields are embedded and sized count*element; callbacks are pointers.',
+         'NOT decided (not applicable to static analysis): equality with the numbers gcc/libffi produce on this platform, enum width thresholds (indistinguishable on this ABI). Trusted: clang-14, stub GLib/ffi headers.',
+         '§4 C08'),
  'C06': ('clang AST sibling cross-checks (three switches), struct-field coverage of the writer, name-provenance lint with reviewed renames, compiler-evaluated sizeof comparison, de-duplication key coverage per type tag, 3-valued decoding tables of girparser.c',
          'Decides structural necessary conditions for every GIR: size, full-size and build switches agree per node kind and every written string is sized; all ~285 fields of the 26 blob/header structs are assigned (or reviewed: padding zeroed by g_malloc0, nested blobs, overlays); 91 blob<-node assignments are like-named or reviewed renames; header sizes, validator and CHECK_SIZE literals equal clang\'s sizeof; the type de-duplication key depends on every node field the type blob stores (per tag); boolean attributes decode "1"->set "0"->clear with consistent defaults and the zero-terminated default is !(length||fixed-size); the index buffer is fully cleared; the validator accepts class prerequisites.',
          'NOT decided (not applicable): the bytes of a concrete typelib, offsets inside the file, 16-bit limits, g_typelib_validate as a whole. Trusted: clang-14 record layout (x86-64) and constant evaluation; stub GLib headers; tables RENAMES/UNWRITTEN_OK in gilint/props/c06.py.',
